@@ -106,6 +106,11 @@ def run(ctx):
     st = explore(ft, ["fit"], 1, sink, stats=st, name="fit-fault/b1")
     sw = sweep_jobs(lambda D, m, o: job(D, "lin", m, None if D == 1 else "ball", seeds[0], target="sphere_in", opts=o), q, modes=("det", "auto", "decl", "spec"))
     st = explore(sw, ["ans", "noise"], 0, sink, stats=st, name="option-variants")
+    from ..optsweep import C09_EXTRA
+    ex = [job(D, "lin", m, c, seeds[0], target="sphere_in", opts=dict(v)) for v in C09_EXTRA for D in (1, 2) for m in ("det", "decl", "spec") for c in (None,)
+          if not (q and D == 2 and m == "decl")]
+    ex += [dict(job(D, g, m, c, seeds[0], target="sphere_in"), target_obj=True) for D in (1, 2) for g in ("lin",) for m in ("det", "spec") for c in (None, "ball_c", "half_c")]
+    st = explore(ex, ["ans", "noise"], 0, sink, stats=st, name="value-spellings/b0")
     sink.finish_cov(st)
     rep.set("gate_jobs", ng)
     vacuity_floor(rep, sink, 100)
